@@ -1,6 +1,18 @@
 package main
 
-// Structural (frame / call-graph / syntactic) obligations.
+// Structural (frame / call-graph / syntactic) obligations, decided by analyses over the SSA of
+// the whole module rather than by a solver.
+
+import (
+	"encoding/json"
+	"fmt"
+	"go/types"
+	"sort"
+	"strings"
+
+	"golang.org/x/tools/go/ssa"
+	"golang.org/x/tools/go/ssa/ssautil"
+)
 
 type StructResult struct {
 	Name, Kind, Text, Detail string
@@ -15,7 +27,261 @@ func (v *Verifier) runStructural(cfg PropConfig) []StructResult {
 	return out
 }
 
+func (v *Verifier) moduleFunctions(includeTests bool) []*ssa.Function {
+	var fns []*ssa.Function
+	for fn := range ssautil.AllFunctions(v.prog) {
+		p := pkgOf(fn)
+		if p == nil || !isModulePkg(p) {
+			continue
+		}
+		if !includeTests && isTestPkgPath(p.Path()) {
+			continue
+		}
+		if len(fn.Blocks) == 0 {
+			continue
+		}
+		fns = append(fns, fn)
+	}
+	sort.Slice(fns, func(i, j int) bool { return fns[i].String() < fns[j].String() })
+	return fns
+}
+
+func isTestPkgPath(path string) bool {
+	return strings.HasSuffix(path, "/test") || strings.Contains(path, "/test/") || strings.HasSuffix(path, "_test") || strings.Contains(path, "/cmd/")
+}
+
+func shortKey(fn *ssa.Function) string {
+	return strings.TrimPrefix(funcKey(fn), modulePath+"/")
+}
+
+func matchAny(key string, allowed []string) bool {
+	for _, a := range allowed {
+		if a == key {
+			return true
+		}
+		if strings.HasSuffix(a, "*") && strings.HasPrefix(key, strings.TrimSuffix(a, "*")) {
+			return true
+		}
+	}
+	return false
+}
+
 func (v *Verifier) structural(cfg PropConfig, sc StructuralCheck) []StructResult {
+	name := fmt.Sprintf("%s/structural/%s[%s]", cfg.ID, sc.Kind, sc.Name)
+	fv := NewFuncVC(v, nil, nil, cfg.ID)
+	switch sc.Kind {
+	case "callback_frame":
+		// every function value of this (named) function type that the module creates writes only
+		// what the type's callback contract declares
+		var a struct {
+			Type string `json:"type"`
+		}
+		json.Unmarshal(sc.Args, &a)
+		t, err := v.ResolveType(a.Type, nil)
+		if err != nil {
+			engineErr("structural %s: %v", sc.Name, err)
+		}
+		n := types.Unalias(t).(*types.Named)
+		con := v.ifaceCon[n.Obj().Pkg().Path()+"."+n.Obj().Name()+".call"]
+		if con == nil {
+			engineErr("structural %s: no callback contract for %s", sc.Name, a.Type)
+		}
+		allowed := map[string]bool{}
+		for _, it := range con.Assigns {
+			switch {
+			case it.TypeT != "":
+				for _, hk := range fv.readKeys(fv.qualifyTypeText(it.TypeT, n.Obj().Pkg())+"::"+it.Field, n.Obj().Pkg()) {
+					allowed[hk.Key] = true
+				}
+			default:
+				if sel, ok := it.Expr.(*SSel); ok {
+					if id, ok := sel.X.(*SIdent); ok && id.Name == "ghost" {
+						if g := v.ghosts[sel.Name]; g != nil {
+							for _, hk := range fv.ghostKeys(g) {
+								allowed[hk.Key] = true
+							}
+						}
+					}
+				}
+			}
+		}
+		v.buildAddrTaken()
+		var bad []string
+		nf := 0
+		for _, f := range effIdx.addrTaken[sigKey(n.Underlying().(*types.Signature))] {
+			if p := pkgOf(f); p != nil && isTestPkgPath(p.Path()) {
+				continue
+			}
+			nf++
+			ks, all := v.Effects(fv, f)
+			if all {
+				bad = append(bad, shortKey(f)+": unknown writes")
+			}
+			for _, k := range ks {
+				if isModuleKey(k) && !allowed[k] {
+					bad = append(bad, shortKey(f)+" writes "+k)
+				}
+			}
+		}
+		sort.Strings(bad)
+		return []StructResult{{Name: name, Kind: "frame", Text: fmt.Sprintf("every %s value created in the module writes only what its callback contract assigns", a.Type),
+			Detail: fmt.Sprintf("%d function values checked; %s", nf, strings.Join(uniq(bad), "; ")), OK: len(bad) == 0}}
+	case "callers_subset":
+		var a struct {
+			Callee  string   `json:"callee"`
+			Allowed []string `json:"allowed"`
+		}
+		json.Unmarshal(sc.Args, &a)
+		callee := v.funcsByKey[modulePath+"/"+a.Callee]
+		if callee == nil {
+			engineErr("structural %s: unknown function %s", sc.Name, a.Callee)
+		}
+		var bad, seen []string
+		for _, fn := range v.moduleFunctions(false) {
+			if v.callsFunction(fn, callee) {
+				k := shortKey(fn)
+				seen = append(seen, k)
+				if !matchAny(k, a.Allowed) {
+					bad = append(bad, k)
+				}
+			}
+		}
+		return []StructResult{{Name: name, Kind: "frame", Text: fmt.Sprintf("callers(%s) within the allowed set", a.Callee),
+			Detail: fmt.Sprintf("callers found: %s; not allowed: %s", strings.Join(seen, ", "), strings.Join(bad, ", ")), OK: len(bad) == 0}}
+	case "writers_subset":
+		var a struct {
+			Field   string   `json:"field"` // pkg.T::field
+			Allowed []string `json:"allowed"`
+		}
+		json.Unmarshal(sc.Args, &a)
+		i := strings.Index(a.Field, "::")
+		t, err := v.ResolveType(a.Field[:i], nil)
+		if err != nil {
+			engineErr("structural %s: %v", sc.Name, err)
+		}
+		fname := a.Field[i+2:]
+		var bad, seen []string
+		for _, fn := range v.moduleFunctions(false) {
+			if v.writesField(fn, t, fname) {
+				k := shortKey(fn)
+				seen = append(seen, k)
+				if !matchAny(k, a.Allowed) {
+					bad = append(bad, k)
+				}
+			}
+		}
+		return []StructResult{{Name: name, Kind: "frame", Text: fmt.Sprintf("writers(%s) within the allowed set", a.Field),
+			Detail: fmt.Sprintf("writers found: %s; not allowed: %s", strings.Join(seen, ", "), strings.Join(bad, ", ")), OK: len(bad) == 0}}
+	case "effects_exclude":
+		// the transitive write set of a function does not contain the given fields
+		var a struct {
+			Func   string   `json:"func"`
+			Fields []string `json:"fields"`
+		}
+		json.Unmarshal(sc.Args, &a)
+		fn := v.funcsByKey[modulePath+"/"+a.Func]
+		if fn == nil {
+			engineErr("structural %s: unknown function %s", sc.Name, a.Func)
+		}
+		ks, all := v.BodyEffects(fv, fn)
+		have := map[string]bool{}
+		for _, k := range ks {
+			have[k] = true
+		}
+		var bad []string
+		if all {
+			bad = append(bad, "unknown writes")
+		}
+		for _, f := range a.Fields {
+			for _, hk := range fv.readKeys(f, nil) {
+				if have[hk.Key] {
+					bad = append(bad, hk.Key)
+				}
+			}
+		}
+		return []StructResult{{Name: name, Kind: "frame", Text: fmt.Sprintf("effects(%s) exclude %s", a.Func, strings.Join(a.Fields, ", ")),
+			Detail: "written: " + strings.Join(uniq(bad), ", "), OK: len(bad) == 0}}
+	}
 	engineErr("unknown structural check kind %q", sc.Kind)
 	return nil
+}
+
+func uniq(xs []string) []string {
+	var out []string
+	for i, x := range xs {
+		if i == 0 || x != xs[i-1] {
+			out = append(out, x)
+		}
+	}
+	return out
+}
+
+// callsFunction: fn contains a call that may reach callee (static call, or invoke of a method
+// callee implements).
+func (v *Verifier) callsFunction(fn, callee *ssa.Function) bool {
+	for _, b := range fn.Blocks {
+		for _, in := range b.Instrs {
+			ci, ok := in.(ssa.CallInstruction)
+			if !ok {
+				// function value taken: counts as a (potential) call
+				var ops []*ssa.Value
+				for _, op := range in.Operands(ops) {
+					if op != nil && *op == ssa.Value(callee) {
+						return true
+					}
+				}
+				continue
+			}
+			cc := ci.Common()
+			if sc := cc.StaticCallee(); sc != nil {
+				if sc == callee || sc.Origin() == callee {
+					return true
+				}
+				// synthetic wrappers (promoted methods, bound methods) are followed
+				if sc.Synthetic != "" && len(sc.Blocks) > 0 && sc != fn && v.callsFunction(sc, callee) {
+					return true
+				}
+				continue
+			}
+			if cc.IsInvoke() && callee.Signature.Recv() != nil && cc.Method.Name() == callee.Name() {
+				rt := callee.Signature.Recv().Type()
+				if it, ok := cc.Value.Type().Underlying().(*types.Interface); ok && types.Implements(rt, it) {
+					return true
+				}
+			}
+			for _, a := range cc.Args {
+				if a == ssa.Value(callee) {
+					return true
+				}
+			}
+		}
+	}
+	return false
+}
+
+func (v *Verifier) writesField(fn *ssa.Function, structT types.Type, field string) bool {
+	for _, b := range fn.Blocks {
+		for _, in := range b.Instrs {
+			st, ok := in.(*ssa.Store)
+			if !ok {
+				continue
+			}
+			fa, ok := st.Addr.(*ssa.FieldAddr)
+			if !ok {
+				continue
+			}
+			t := fa.X.Type().Underlying().(*types.Pointer).Elem()
+			if !types.Identical(t, structT) {
+				continue
+			}
+			if t.Underlying().(*types.Struct).Field(fa.Field).Name() == field {
+				// initialisation of an object allocated in this function is not a write to existing state
+				if isLocalFresh(st.Addr) {
+					continue
+				}
+				return true
+			}
+		}
+	}
+	return false
 }
